@@ -145,7 +145,7 @@ theorem flatMap_append_perm {α β : Type} (f g : α → List β) : ∀ l : List
 `L`: concatenating what is found, in the order of `L`, is concatenating over `as` -/
 theorem flatMap_find_sublist {α κ β : Type} [DecidableEq κ] (key : α → κ) (val : α → List β) :
     ∀ (as : List α) (L : List κ), (as.map key).Sublist L → L.Nodup →
-      (L.flatMap fun x => match as.find? (fun a => decide (key a = x)) with | some a => val a | none => []) = as.flatMap val
+      (L.flatMap fun x => ((as.find? (fun a => decide (key a = x))).map val).getD []) = as.flatMap val
   | as, [], hs, _ => by
     have : as = [] := by simpa using hs
     subst this; rfl
@@ -153,7 +153,7 @@ theorem flatMap_find_sublist {α κ β : Type} [DecidableEq κ] (key : α → κ
     rw [nodup_cons] at nd
     cases as with
     | nil =>
-      simp only [flatMap_cons, find?_nil, nil_append, flatMap_nil]
+      simp only [flatMap_cons, find?_nil, Option.map_none, Option.getD_none, nil_append, flatMap_nil]
       have := flatMap_find_sublist key val [] L (by simp) nd.2
       simpa using this
     | cons a as =>
@@ -167,7 +167,8 @@ theorem flatMap_find_sublist {α κ β : Type} [DecidableEq κ] (key : α → κ
             exact absurd (h.subset mem_cons_self) nd.1
           | cons_cons _ h => exact h
         have ih := flatMap_find_sublist key val as L hs' nd.2
-        simp only [flatMap_cons, find?_cons_of_pos (p := fun b => decide (key b = key a)) (by simp : decide (key a = key a) = true)]
+        simp only [flatMap_cons, find?_cons_of_pos (p := fun b => decide (key b = key a)) (by simp : decide (key a = key a) = true),
+          Option.map_some, Option.getD_some]
         congr 1
         rw [← ih]
         apply Sema.C16.flatMap_congr'
@@ -182,7 +183,7 @@ theorem flatMap_find_sublist {α κ β : Type} [DecidableEq κ] (key : α → κ
         have hx : ((a :: as).find? fun b => decide (key b = x)) = none := by
           rw [find?_eq_none]; intro b hb; simp only [decide_eq_true_eq]
           intro hbx; apply nd.1; rw [← hbx]; exact hs'.subset (mem_map_of_mem (f := key) hb)
-        simp only [flatMap_cons, hx, nil_append]
+        simp only [flatMap_cons, hx, Option.map_none, Option.getD_none, nil_append]
         exact ih
 
 /-- the ranges of a chain, cut out of the batch in order, are the batch between its ends -/
